@@ -158,6 +158,26 @@ def _build_native(repo, release=False):
     return {'replay': os.path.join(bind, 'txtpp-replay'), 'txtpp': os.path.join(bind, 'txtpp')}
 
 
+_faultinj = []
+
+
+def faultinj_so():
+    """LD_PRELOAD fault injector for native replays of I/O-failure counterexamples (None when no C compiler is available)"""
+    if _faultinj:
+        return _faultinj[0]
+    out = os.path.join(scratch_dir(), 'faultinj.so')
+    src = os.path.join(VERIF, 'replay', 'faultinj', 'faultinj.c')
+    so = None
+    for cc in ('cc', 'gcc', 'clang'):
+        if shutil.which(cc):
+            r = subprocess.run([cc, '-shared', '-fPIC', '-O1', '-o', out, src, '-ldl'], stdout=subprocess.PIPE, stderr=subprocess.PIPE)
+            if r.returncode == 0:
+                so = out
+                break
+    _faultinj.append(so)
+    return so
+
+
 _machine = None
 
 
